@@ -1,240 +1,469 @@
-"""C01 — every result is a valid symmetric array (partial: bookkeeping that must change together).
+"""C01 — every result is a valid symmetric array.
 
-Ten co-update obligations (O1..O10), each located by shape in the AST and each a necessary condition of validity
-for some input.
+Decided by abstract evaluation: symmray's own source is interpreted by the checker's evaluator over a bounded universe of
+arrays whose index tables, sectors, pending-sign tables and odd-position labels are concrete and whose block contents are
+shaped tokens; every array returned by every public operation is audited against the property's validity predicate.
 """
 
 from __future__ import annotations
 
-import ast
-
-from engine.loader import AnalysisError, src, walk_own
+from engine.absarray import Model, STok, audit_kinds, make_index
+from engine.absops import NONTRIVIAL, PYERR, TABLES, Spec, World, partner, specs
+from engine.loader import AnalysisError
+from engine.minieval import Obj, Raised, Unsupported
 
 PID = "C01"
 EXPLANATION = (
-    "Validity of a result (sector charges combine to the total charge, block shapes match the index tables, fused indices carry "
-    "partitioning sub-index tables, sign tables name real sectors, label parity matches charge parity) is a statement about "
-    "runtime tables; what is visible in the code is that certain pieces of state are ALWAYS UPDATED TOGETHER. The check is a "
-    "table of co-update obligations, each found by shape (not by line) and each necessary for validity on some input: O1 flipping "
-    "every index direction goes with negating the total charge (and conjugating the labels); O2 conjugating an index conjugates "
-    "its sub-index table recursively; O3 dropping charges filters the charge table and the sub-index extents by the same set; O4 "
-    "a contraction result's charge is combine(a.charge, b.charge) wherever its indices are built from both operands' free "
-    "indices; O5 expand_dims uses one axis for sector, selector and index and updates the charge iff a charge is given; O6 squeeze "
-    "removes an axis only if it has size one and the identity charge; O7 re-keying blocks re-keys the sign table (C09/R09.2); O8 "
-    "truncation re-indexes both factors together (C13/R13.4); O9 every site that filters sectors shrinks the charge tables to "
-    "the charges still present; O10 contraction stores the merged labels on every path (C04/R04.3). Value-level validity (shapes "
-    "vs tables) remains the business of the library's own run-time check()."
+    "Abstract evaluation of the public operations. The checker's own evaluator (engine/minieval.py; symmray is never imported or "
+    "run) interprets the ASTs of the current source on a bounded universe of arrays: symmetries Z2, U1, Z2Z2 (U1U1 and Z4 in the "
+    "thorough tier), ranks 1-4, several direction patterns (all of them in the thorough tier), identity and non-identity total "
+    "charge, full and sparse sector sets, abelian and fermionic (with pending signs and an odd-position label). Index tables, "
+    "sectors, sign tables and labels are concrete; block CONTENTS are opaque shaped tokens, and the backend functions are "
+    "modelled by their shape behaviour only (transpose, reshape, tensordot, concatenate, zeros+slice assignment, qr/svd/eigh/"
+    "solve). Every array returned by every operation (and, in the thorough tier, by two-step programs) is audited with the "
+    "property's own predicate, written independently of the library's check(): each sector has one charge per index, every "
+    "charge is in its index table, the signed charges combine to the total charge (the checker's own group model), the block "
+    "shape equals the table sizes, tables are sorted with positive integer sizes, a fused index carries extents that partition "
+    "it with every sub-sector filed under its signed combination, the pending-sign table names charge-conserving sectors with "
+    "values of plus or minus one, and the number of odd-position labels has the parity of the total charge. An operation that "
+    "fails with a Python error on a valid operand is reported as well. The verdict covers exactly the enumerated programs "
+    "(listed in the evidence), not all programs; numerical contents are not examined."
 )
-ASSUMPTIONS = ["the operands of an operation are valid arrays"]
+ASSUMPTIONS = [
+    "backend array functions behave on shapes as modelled in engine/absarray.py (shaped_backend)",
+    "the evaluator implements the Python semantics of the sub-language the library uses (anything else fails closed)",
+]
 
 
-def _modify_calls(f):
-    for c in ast.walk(f.node):
-        if isinstance(c, ast.Call) and isinstance(c.func, ast.Attribute) and c.func.attr in ("modify", "copy_with"):
-            yield c
+class Battery:
+    def __init__(self, prog, tier):
+        self.prog, self.tier = prog, tier
+        self.w = World(prog)
+        self.res = {}  # (rule, opname) -> {"n": int, "anchor": fq, "problems": {kind: witness}}
+        self.nprog = 0
+
+    def record(self, rule, opname, anchor, spec_desc, results=None, error=None):
+        slot = self.res.setdefault((rule, opname), {"n": 0, "anchor": anchor.fq, "problems": {}})
+        slot["n"] += 1
+        self.nprog += 1
+        if error is not None:
+            slot["problems"].setdefault("fails", f"on {spec_desc}: {error}")
+            return
+        for sym, r in results:
+            if not isinstance(r, Obj) or r.cls.name == "BlockVector":
+                continue  # scalars, vectors
+            for kind, text in audit_kinds(r, sym):
+                slot["problems"].setdefault(kind, f"on {spec_desc}: {text}")
+
+    def run(self, rule, opname, anchor, spec, fn, others=(), refusal_ok=False):
+        """evaluate fn(ev, x, *others) on fresh builds"""
+        w = self.w
+        try:
+            x = spec.build(w)
+            ys = [o.build(w) for o in others]
+            ev = w.ev()
+            out = fn(ev, x, *ys)
+        except Unsupported as e:
+            raise AnalysisError(f"{opname} outside the evaluable sub-language: {e}")
+        except Raised as e:
+            if refusal_ok and getattr(e, "exc_name", None) in ("ValueError", "NotImplementedError"):
+                return None  # an explicit refusal of the second step of a generated program is not a result
+            self.record(rule, opname, anchor, spec.describe(), error=f"raises {e.what[:120]}")
+            return None
+        except PYERR as e:
+            self.record(rule, opname, anchor, spec.describe(), error=f"{type(e).__name__}: {e}")
+            return None
+        if not isinstance(out, (tuple, list)):
+            out = (out,)
+        self.record(rule, opname, anchor, spec.describe() + "".join(f" ; {o.describe()}" for o in others), results=[(spec.sym, r) for r in out])
+        return out
+
+    def merge(self, res, nprog):
+        for key, slot in res.items():
+            mine = self.res.setdefault(key, {"n": 0, "anchor": slot["anchor"], "problems": {}})
+            mine["n"] += slot["n"]
+            for kind, wit in slot["problems"].items():
+                mine["problems"].setdefault(kind, wit)
+        self.nprog += nprog
+
+    def flush(self, ctx):
+        for (rule, opname), slot in sorted(self.res.items(), key=lambda kv: kv[0]):
+            a = self.prog.funcs[slot["anchor"]]
+            if not slot["problems"]:
+                ctx.check(True, rule, a, a.node, opname, f"{opname}: every result valid ({slot['n']} abstract evaluations)")
+            for kind, wit in sorted(slot["problems"].items()):
+                ctx.check(False, rule, a, a.node, f"{opname}:{kind}", f"{opname}: result not valid [{kind}] — witness {wit}")
 
 
-def _resolve(f, e, depth=0):
-    """inline single-assignment locals"""
-    if depth > 3:
-        return e
-    if isinstance(e, ast.Name):
-        d = [a for a in ast.walk(f.node) if isinstance(a, ast.Assign) and len(a.targets) == 1 and src(a.targets[0]) == e.id]
-        if len(d) == 1:
-            return _resolve(f, d[0].value, depth + 1)
-    return e
+def _fuse_groupings(nd):
+    return {
+        2: [((0, 1),), ((1, 0),)],
+        3: [((0, 1),), ((1, 2),), ((2, 0),), ((0,), (1, 2)), ((0, 1, 2),)],
+        4: [((0, 1), (2, 3)), ((0, 2), (1, 3)), ((3, 1),), ((1, 2, 3),), ((0, 3), (2,)), ((2, 3), (0, 1))],
+    }.get(nd, [])
 
 
-def o1_conj_sites(prog, ctx):
-    rid = "O1"
-    n = 0
-    for f in sorted(prog.funcs.values(), key=lambda f: f.fq):
-        if f.parent is not None or f.cls is None or not prog.is_subclass(f.cls, "AbelianArray"):
+def _fused_axes(arr):
+    return [i for i, ix in enumerate(arr.fields["_indices"]) if ix.fields.get("_subinfo") is not None]
+
+
+def unary_ops(b, sp):
+    w, prog = b.w, b.prog
+    arr = prog.cls("FermionicArray" if sp.fermionic else "AbelianArray")
+    nd = sp.ndim
+
+    def m(name):
+        return prog.lookup_method(arr, name)
+
+    rev = tuple(reversed(range(nd)))
+    cyc = tuple(range(1, nd)) + (0,)
+    ops = [
+        ("V1", "copy", m("copy"), lambda ev, x: w.meth(ev, x, "copy")),
+        ("V1", "conj", m("conj"), lambda ev, x: w.meth(ev, x, "conj")),
+        ("V1", "dagger", m("dagger"), lambda ev, x: w.meth(ev, x, "dagger")),
+        ("V1", "transpose(reverse)", m("transpose"), lambda ev, x: w.meth(ev, x, "transpose", rev)),
+        ("V1", "transpose(cyclic)", m("transpose"), lambda ev, x: w.meth(ev, x, "transpose", cyc)),
+        ("V1", "transpose()", m("transpose"), lambda ev, x: w.meth(ev, x, "transpose")),
+        ("V1", "-x", m("__neg__"), lambda ev, x: w.meth(ev, x, "__neg__")),
+        ("V1", "x*2", m("__mul__"), lambda ev, x: w.meth(ev, x, "__mul__", 2.0)),
+        ("V1", "x/2", m("__truediv__"), lambda ev, x: w.meth(ev, x, "__truediv__", 2.0)),
+        ("V1", "sync_charges", m("sync_charges"), lambda ev, x: w.meth(ev, x, "sync_charges")),
+        ("V1", "sync_charges(inplace)", m("sync_charges"), lambda ev, x: w.meth(ev, x, "sync_charges", inplace=True)),
+        ("V1", "conj(inplace)", m("conj"), lambda ev, x: w.meth(ev, x, "conj", inplace=True)),
+        ("V1", "transpose(inplace)", m("transpose"), lambda ev, x: w.meth(ev, x, "transpose", cyc, inplace=True)),
+        ("V1", "einsum(permutation)", m("einsum"),
+         lambda ev, x: w.meth(ev, x, "einsum", "abcd"[:nd] + "->" + "".join("abcd"[i] for i in cyc))),
+    ]
+
+    def fill(ev, x):
+        w.meth(ev, x, "fill_missing_blocks")
+        return x
+
+    ops.append(("V1", "fill_missing_blocks", m("fill_missing_blocks"), fill))
+    # expand_dims / squeeze
+    ident = Model(sp.sym).combine()
+    for ax in sorted({0, nd, -1, min(1, nd)}):
+        ops.append(("V2", f"expand_dims({ax})", m("expand_dims"), lambda ev, x, ax=ax: w.meth(ev, x, "expand_dims", ax)))
+        ops.append(("V2", f"expand_dims({ax}).squeeze()", m("squeeze"),
+                    lambda ev, x, ax=ax: w.meth(ev, w.meth(ev, x, "expand_dims", ax), "squeeze")))
+        ops.append(("V2", f"expand_dims({ax}).squeeze({ax})", m("squeeze"),
+                    lambda ev, x, ax=ax: w.meth(ev, w.meth(ev, x, "expand_dims", ax), "squeeze", ax)))
+    c = NONTRIVIAL[sp.sym]
+    odd = Model(sp.sym).parity(c)
+    tagc = "expand_dims(c=charged)" if not (sp.fermionic and odd) else "expand_dims(c=odd charge) on a fermionic array"
+    for dual in (False, True):
+        ops.append(("V2", tagc, m("expand_dims"), lambda ev, x, dual=dual: w.meth(ev, x, "expand_dims", min(1, nd), c=c, dual=dual)))
+    ops.append(("V2", "expand_dims(c=identity)", m("expand_dims"), lambda ev, x: w.meth(ev, x, "expand_dims", 0, c=ident, dual=True)))
+    # fuse / unfuse / reshape
+    for groups in _fuse_groupings(nd):
+        gname = ",".join("(" + ",".join(map(str, g)) + ")" for g in groups)
+        ops.append(("V3", f"fuse{gname}", m("fuse"), lambda ev, x, groups=groups: w.meth(ev, x, "fuse", *groups)))
+        if not sp.fermionic:
+            ops.append(("V3", f"fuse{gname} mode=concat", m("fuse"), lambda ev, x, groups=groups: w.meth(ev, x, "fuse", *groups, mode="concat")))
+            ops.append(("V3", f"fuse{gname} mode=insert", m("fuse"), lambda ev, x, groups=groups: w.meth(ev, x, "fuse", *groups, mode="insert")))
+
+        def fu_all(ev, x, groups=groups):
+            y = w.meth(ev, x, "fuse", *groups)
+            return (y, w.meth(ev, y, "unfuse_all"))
+
+        def fu_each(ev, x, groups=groups):
+            y = w.meth(ev, x, "fuse", *groups)
+            out = [y]
+            for ax in reversed(_fused_axes(y)):
+                y = w.meth(ev, y, "unfuse", ax)
+                out.append(y)
+            return tuple(out)
+
+        def fu_twice(ev, x, groups=groups):
+            y = w.meth(ev, x, "fuse", *groups)
+            n2 = len(y.fields["_indices"])
+            if n2 < 2:
+                return (y,)
+            z = w.meth(ev, y, "fuse", tuple(range(n2)))
+            u = w.meth(ev, z, "unfuse", 0)
+            return (y, z, u, w.meth(ev, z, "unfuse_all"))
+
+        def fu_conj(ev, x, groups=groups):
+            y = w.meth(ev, w.meth(ev, x, "fuse", *groups), "conj")
+            return (y, w.meth(ev, y, "unfuse_all"))
+
+        def fu_tr(ev, x, groups=groups):
+            y = w.meth(ev, x, "fuse", *groups)
+            n2 = len(y.fields["_indices"])
+            y = w.meth(ev, y, "transpose", tuple(reversed(range(n2))))
+            return (y, w.meth(ev, y, "unfuse_all"))
+
+        def fu_reshape(ev, x, groups=groups):
+            y = w.meth(ev, x, "fuse", *groups)
+            shp = w.meth(ev, y, "shape")
+            xs = w.meth(ev, x, "shape")
+            back = w.meth(ev, y, "reshape", xs) if len(groups) == 1 and sorted(groups[0]) == list(range(groups[0][0], groups[0][0] + len(groups[0]))) \
+                and list(groups[0]) == sorted(groups[0]) else None
+            return (y,) + ((back,) if back is not None else ())
+
+        ops.append(("V3", f"fuse{gname}.unfuse_all", m("unfuse_all"), fu_all))
+        ops.append(("V3", f"fuse{gname}.unfuse(each)", m("unfuse"), fu_each))
+        ops.append(("V3", f"fuse{gname}.fuse(all).unfuse", m("fuse"), fu_twice))
+        ops.append(("V3", f"fuse{gname}.conj.unfuse_all", m("conj"), fu_conj))
+        ops.append(("V3", f"fuse{gname}.transpose.unfuse_all", m("transpose"), fu_tr))
+        ops.append(("V3", f"fuse{gname}.reshape(back)", m("reshape"), fu_reshape))
+    if sp.fermionic:
+        first = sp.sectors()[0]
+        ops += [
+            ("V6", "phase_sync", m("phase_sync"), lambda ev, x: w.meth(ev, x, "phase_sync")),
+            ("V6", "phase_sync(inplace)", m("phase_sync"), lambda ev, x: w.meth(ev, x, "phase_sync", inplace=True)),
+            ("V6", "phase_flip(0)", m("phase_flip"), lambda ev, x: w.meth(ev, x, "phase_flip", 0)),
+            ("V6", "phase_flip(0,last)", m("phase_flip"), lambda ev, x: w.meth(ev, x, "phase_flip", 0, nd - 1)),
+            ("V6", "phase_transpose", m("phase_transpose"), lambda ev, x: w.meth(ev, x, "phase_transpose", rev)),
+            ("V6", "phase_sector", m("phase_sector"), lambda ev, x: w.meth(ev, x, "phase_sector", first)),
+            ("V6", "phase_global", m("phase_global"), lambda ev, x: w.meth(ev, x, "phase_global")),
+            ("V6", "conj(phase_permutation=False)", m("conj"), lambda ev, x: w.meth(ev, x, "conj", phase_permutation=False)),
+            ("V6", "conj(phase_dual=True)", m("conj"), lambda ev, x: w.meth(ev, x, "conj", phase_dual=True)),
+            ("V6", "dagger(phase_dual=True)", m("dagger"), lambda ev, x: w.meth(ev, x, "dagger", phase_dual=True)),
+            ("V6", "transpose(phase=False)", m("transpose"), lambda ev, x: w.meth(ev, x, "transpose", rev, phase=False)),
+        ]
+    return ops
+
+
+def binary_ops(b, sp):
+    """(rule, name, anchor, fn, other specs)"""
+    w, prog = b.w, b.prog
+    arr = prog.cls("FermionicArray" if sp.fermionic else "AbelianArray")
+    td = prog.func("symmray.interface:tensordot")
+    tdi = w.ev().dispatch(td, arr)
+    out = []
+    other = Spec(sp.sym, sp.duals, sp.charge, sp.tables, drop=("first" if sp.drop != "first" else "last"), fermionic=sp.fermionic,
+                 signs=(1 if sp.fermionic else 0), tag="y", label=sp.label)
+    same = Spec(sp.sym, sp.duals, sp.charge, sp.tables, drop=sp.drop, fermionic=sp.fermionic, signs=(1 if sp.fermionic else 0), tag="y",
+                label=sp.label)
+    if other.sectors():
+        # addition keeps blocks present on one side only; subtraction requires the same sectors on both sides
+        out.append(("V4", "x+y", prog.lookup_method(arr, "__add__"), lambda ev, x, y: w.meth(ev, x, "__add__", y), (other,)))
+    out.append(("V4", "x-y", prog.lookup_method(arr, "__sub__"), lambda ev, x, y: w.meth(ev, x, "__sub__", y), (same,)))
+    nd = sp.ndim
+    for ncon in range(0, min(nd, 3) + 1):
+        for nfree in (0, 1, 2):
+            if ncon + nfree == 0 or ncon + nfree > 4:
+                continue
+            for pdrop in ("none", "alternate"):
+                other = partner(sp, ncon, nfree, drop=pdrop)
+                if other is None:
+                    continue
+                axes = (tuple(range(nd - ncon, nd)), tuple(range(ncon)))
+                for mode in ("auto", "fused", "blockwise"):
+                    out.append(("V4", f"tensordot[{mode}] {ncon} contracted, {nd - ncon}+{nfree} free", tdi,
+                                lambda ev, x, y, axes=axes, mode=mode: w.fn(ev, "symmray.interface:tensordot", x, y, axes=axes, mode=mode,
+                                                                            preserve_array=True), (other,)))
+                if ncon >= 1:
+                    # reversed order of the contracted axes on both sides
+                    axes_r = (tuple(reversed(axes[0])), tuple(reversed(axes[1])))
+                    out.append(("V4", f"tensordot[auto, reversed axes] {ncon} contracted", tdi,
+                                lambda ev, x, y, axes=axes_r: w.fn(ev, "symmray.interface:tensordot", x, y, axes=axes, preserve_array=True), (other,)))
+                    out.append(("V4", f"align_axes {ncon}", prog.lookup_method(arr, "align_axes"),
+                                lambda ev, x, y, axes=axes: w.meth(ev, x, "align_axes", y, axes), (other,)))
+                if ncon == 1 and nd <= 2 and nfree <= 1:
+                    out.append(("V4", f"x@y ({nd}d @ {1 + nfree}d)", prog.lookup_method(arr, "__matmul__"),
+                                lambda ev, x, y: w.meth(ev, x, "__matmul__", y), (other,)))
+    return out
+
+
+def matrix_ops(b, sp):
+    w, prog = b.w, b.prog
+    arr = prog.cls("FermionicArray" if sp.fermionic else "AbelianArray")
+    ev0 = w.ev()
+    out = []
+    for name in ("qr", "svd"):
+        g = prog.func(f"symmray.linalg:{name}")
+        out.append(("V5", name, ev0.dispatch(g, arr), lambda ev, x, name=name: w.fn(ev, f"symmray.linalg:{name}", x)))
+    g = prog.func("symmray.linalg:svd_truncated")
+    for absorb in (None, 0, -1, 1):
+        for mb in (-1, 2):
+            out.append(("V5", f"svd_truncated(max_bond={mb}, absorb={absorb})", g,
+                        lambda ev, x, absorb=absorb, mb=mb: w.fn(ev, "symmray.linalg:svd_truncated", x, cutoff=-1.0, max_bond=mb, absorb=absorb)))
+    out.append(("V5", "qr(stabilized via qr_stabilized)", prog.func("symmray.linalg:qr_stabilized"),
+                lambda ev, x: tuple(r for r in w.fn(ev, "symmray.linalg:qr_stabilized", x) if r is not None)))
+    return out
+
+
+def square_specs(tier):
+    """matrices whose two indices are conjugates of each other (trace, eigh, solve, multiply_diagonal)"""
+    out = []
+    syms = ("Z2", "U1", "Z2Z2") if tier == "quick" else ("Z2", "U1", "Z2Z2", "U1U1", "Z4")
+    for sym in syms:
+        t = TABLES[sym][0]
+        ident = Model(sym).combine()
+        for d0 in (False, True):
+            for drop in ("none", "first"):
+                for fm in (False, True):
+                    sp = Spec(sym, (d0, not d0), ident, (t, t), drop=drop, fermionic=fm, signs=(1 if fm else 0))
+                    if sp.sectors():
+                        out.append(sp)
+    return out
+
+
+def square_ops(b, sp):
+    w, prog = b.w, b.prog
+    arr = prog.cls("FermionicArray" if sp.fermionic else "AbelianArray")
+    ev0 = w.ev()
+    out = []
+    g = prog.func("symmray.linalg:eigh")
+    out.append(("V5", "eigh", ev0.dispatch(g, arr), lambda ev, x: w.fn(ev, "symmray.linalg:eigh", x)))
+    out.append(("V4", "einsum(aa->) / trace", prog.lookup_method(arr, "einsum"), lambda ev, x: w.meth(ev, x, "einsum", "aa->", preserve_array=True)))
+    out.append(("V4", "fuse(0,1) of a square matrix", prog.lookup_method(arr, "fuse"), lambda ev, x: w.meth(ev, x, "fuse", (0, 1))))
+
+    def muldiag(ev, x, axis):
+        t = sp.tables[axis]
+        v = Obj(prog.cls("BlockVector"), {"_blocks": {c: STok(("v", c), (d,)) for c, d in list(t.items())[:-1] or t.items()}})
+        return w.meth(ev, x, "multiply_diagonal", v, axis)
+
+    for axis in (0, 1):
+        out.append(("V4", f"multiply_diagonal(axis={axis})", prog.lookup_method(arr, "multiply_diagonal"), lambda ev, x, axis=axis: muldiag(ev, x, axis)))
+    return out
+
+
+def solve_cases(b, tier):
+    w, prog = b.w, b.prog
+    g = prog.func("symmray.linalg:solve")
+    ev0 = w.ev()
+    for sym in ("Z2", "U1"):
+        t = {c: 2 for c in TABLES[sym][0]}
+        model = Model(sym)
+        for d0 in (False, True):
+            for d1 in (False, True):
+                for ca in (model.combine(), NONTRIVIAL[sym]):
+                    for cb in (model.combine(), NONTRIVIAL[sym]):
+                        for fm in (False, True):
+                            a = Spec(sym, (d0, d1), ca, (t, t), fermionic=fm, signs=(1 if fm else 0), tag="a")
+                            bb = Spec(sym, (d0,), cb, (t,), fermionic=fm, signs=(1 if fm else 0), tag="b", label=2)
+                            if not a.sectors() or not bb.sectors():
+                                continue
+                            arr = prog.cls("FermionicArray" if fm else "AbelianArray")
+                            b.run("V5", "solve", ev0.dispatch(g, arr), a, lambda ev, x, y: w.fn(ev, "symmray.linalg:solve", x, y), others=(bb,))
+
+
+def chains(b, sp, first_ops, second_for):
+    """two-step programs: every array produced by a first operation is fed to every applicable second operation"""
+    w = b.w
+    for (rule, n1, a1, f1) in first_ops:
+        try:
+            x = sp.build(w)
+            r1 = f1(w.ev(), x)
+        except (Raised,) + PYERR:
             continue
-        for c in _modify_calls(f):
-            kws = {k.arg: k.value for k in c.keywords}
-            if "indices" not in kws:
-                continue
-            iv = _resolve(f, kws["indices"])
-            s = src(iv).replace(" ", "")
-            flips_all = s.startswith("tuple((ix.conj()forixin") and ("indices)" in s)
-            if not flips_all:
-                continue
-            n += 1
-            ch = kws.get("charge")
-            ok = ch is not None and ".symmetry.sign(" in src(ch) and "_charge" in src(ch)
-            ctx.check(ok, rid, f, c, src(c)[:100], f"{f.qualname}: flipping every index direction is accompanied by charge = sign(charge) in the same update")
-            if prog.is_subclass(f.cls, "FermionicArray"):
-                od = kws.get("oddpos")
-                ctx.check(od is not None and src(od).startswith("oddpos_dag("), rid, f, c, src(c)[:100],
-                          f"{f.qualname}: ... and by conjugating the odd-position labels")
-    ctx.need(n >= 3, f"O1: only {n} all-index conjugation sites found")
-
-
-def o2_index_conj(prog, ctx):
-    rid = "O2"
-    f = prog.func("symmray.abelian_core:BlockIndex.conj")
-    body = {src(a.targets[0]): src(a.value) for a in walk_own(f.node) if isinstance(a, ast.Assign)}
-    ok = body.get("dual") == "not self.dual" and body.get("subinfo") == "None if self.subinfo is None else self.subinfo.conj()"
-    ret = [r for r in walk_own(f.node) if isinstance(r, ast.Return)]
-    ok = ok and len(ret) == 1 and src(ret[0].value) == "self.copy_with(dual=dual, subinfo=subinfo)"
-    ctx.check(ok, rid, f, f.node, "BlockIndex.conj", "conjugating an index flips its direction AND conjugates its sub-index table")
-    g = prog.func("symmray.abelian_core:SubIndexInfo.conj")
-    ret = [r for r in walk_own(g.node) if isinstance(r, ast.Return)]
-    ctx.check(len(ret) == 1 and src(ret[0].value) == "self.copy_with(indices=tuple((ix.conj() for ix in self._indices)))", rid, g, g.node,
-              "SubIndexInfo.conj", "conjugating a sub-index table conjugates each sub-index (recursively), keeping the extents")
-
-
-def o3_drop_charges(prog, ctx):
-    rid = "O3"
-    f = prog.func("symmray.abelian_core:BlockIndex.drop_charges")
-    ret = [r for r in walk_own(f.node) if isinstance(r, ast.Return)]
-    ctx.need(len(ret) == 1 and isinstance(ret[0].value, ast.Call), "BlockIndex.drop_charges: return not found")
-    kws = {k.arg: src(k.value).replace(" ", "") for k in ret[0].value.keywords}
-    ok = kws.get("chargemap") == "{c:dforc,dinself._chargemap.items()ifcnotincharges}" and \
-        kws.get("subinfo") == "Noneifself.subinfoisNoneelseself.subinfo.drop_charges(charges)"
-    ctx.check(ok, rid, f, f.node, "BlockIndex.drop_charges", "the charge table and the sub-index extents are filtered by the same set of charges")
-    g = prog.func("symmray.abelian_core:SubIndexInfo.drop_charges")
-    ret = [r for r in walk_own(g.node) if isinstance(r, ast.Return)]
-    kws = {k.arg: src(k.value).replace(" ", "") for k in ret[0].value.keywords} if ret else {}
-    ctx.check(kws.get("extents") == "{c:extentforc,extentinself._extents.items()ifcnotincharges}", rid, g, g.node, "SubIndexInfo.drop_charges",
-              "extents of dropped fused charges are removed")
-
-
-def o4_contraction_charge(prog, ctx):
-    rid = "O4"
-    n = 0
-    for f in sorted(prog.funcs.values(), key=lambda f: f.fq):
-        if f.parent is not None:
+        except Unsupported as e:
+            raise AnalysisError(f"{n1} outside the evaluable sub-language: {e}")
+        if isinstance(r1, tuple):
+            r1 = r1[-1]
+        if not isinstance(r1, Obj) or "_indices" not in r1.fields:
             continue
-        for c in ast.walk(f.node):
-            if not (isinstance(c, ast.Call) and isinstance(c.func, ast.Attribute) and c.func.attr == "copy_with"):
-                continue
-            kws = {k.arg: k.value for k in c.keywords}
-            if "indices" not in kws:
-                continue
-            iv = src(_resolve(f, kws["indices"])).replace(" ", "")
-            both = "without(a.indices,axes_a)+without(b.indices,axes_b)" in iv
-            if isinstance(kws["indices"], ast.Call) and src(kws["indices"].func) == "tuple" and kws["indices"].args:
-                iv2 = src(_resolve(f, kws["indices"].args[0])).replace(" ", "")
-                both = both or "without(a.indices,axes_a)+without(b.indices,axes_b)" in iv2
-            if not both:
-                continue
-            n += 1
-            ch = kws.get("charge")
-            ok = ch is not None and src(ch).replace(" ", "") == "a.symmetry.combine(a.charge,b.charge)"
-            ctx.check(ok, rid, f, c, src(c)[:100], f"{f.qualname}: a result built from both operands' free indices gets charge combine(a.charge, b.charge)")
-            ctx.check(src(c.func.value) == "a", rid, f, c, src(c.func), f"{f.qualname}: the result is derived from the left operand (class, symmetry)")
-    ctx.need(n >= 2, f"O4: only {n} contraction result sites found")
+        nd2 = len(r1.fields["_indices"])
+        for (rule2, n2, a2, f2) in second_for(nd2):
+            def prog2(ev, x, f1=f1, f2=f2):
+                y = f1(ev, x)
+                if isinstance(y, tuple):
+                    y = y[-1]
+                return f2(ev, y)
+            b.run("V7", f"{n1} ; {n2}", a2, sp, prog2, refusal_ok=True)
 
 
-def o5_expand_dims(prog, ctx):
-    rid = "O5"
-    f = prog.func("symmray.abelian_core:AbelianArray.expand_dims")
-    lam = [l for l in ast.walk(f.node) if isinstance(l, ast.Lambda) and src(l.args) == "sector"]
-    ok = len(lam) == 1 and src(lam[0].body) == "(*sector[:axis], c, *sector[axis:])"
-    ctx.check(ok, rid, f, f.node, "sector insertion", "the new charge is inserted into every sector at `axis`")
-    sel = [a for a in walk_own(f.node) if isinstance(a, ast.Assign) and src(a.targets[0]) == "selector"]
-    ok = len(sel) == 1 and src(sel[0].value).replace(" ", "") == "(slice(None),)*axis+(None,)+(slice(None),)*(x.ndim-axis)"
-    ctx.check(ok, rid, f, f.node, "selector", "the new unit axis is inserted into every block at the same `axis`")
-    ni = [a for a in walk_own(f.node) if isinstance(a, ast.Assign) and src(a.targets[0]) == "new_indices"]
-    ok = len(ni) == 1 and src(ni[0].value).replace(" ", "") == "(*x.indices[:axis],BlockIndex({c:1},dual=dual),*x.indices[axis:])"
-    ctx.check(ok, rid, f, f.node, "index insertion", "a size-one index of charge c is inserted at the same `axis`")
-    ifs = [n for n in walk_own(f.node) if isinstance(n, ast.If) and src(n.test) == "c is None"]
-    ok = len(ifs) == 1 and any(src(s) == "new_charge = charge" for s in ifs[0].body) and any(
-        src(s) == "new_charge = x.symmetry.combine(charge, x.symmetry.sign(c, dual))" for s in ifs[0].orelse) and \
-        any(src(s) == "c = x.symmetry.combine()" for s in ifs[0].body)
-    ctx.check(ok, rid, f, f.node, "charge update", "the total charge absorbs the signed new charge iff one is given; default is the identity charge")
-    neg = [n for n in walk_own(f.node) if isinstance(n, ast.If) and src(n.test) == "axis < 0"]
-    ok = len(neg) == 1 and src(neg[0].body[0]) == "axis += x.ndim + 1" and neg[0].lineno < sel[0].lineno if sel else False
-    ctx.check(ok, rid, f, f.node, "negative axis", "a negative axis is normalised once, before any use")
-    m = [c for c in walk_own(f.node) if isinstance(c, ast.Call) and src(c.func) == "x.modify"]
-    ok = len(m) == 1 and {k.arg: src(k.value) for k in m[0].keywords} == {"indices": "new_indices", "charge": "new_charge"}
-    ctx.check(ok, rid, f, f.node, "modify", "indices and charge are installed together")
+CHAIN_SKIP_FIRST = (" mode=", "inplace", ".unfuse", ".fuse(all)", ".reshape", ".conj.", ".transpose.", "squeeze", "odd charge", "copy")
+CHAIN_SKIP_SECOND = (" mode=", "inplace", "phase_sector", ".fuse(all)", ".reshape", ".conj.", ".transpose.", "(each)", "odd charge", "copy")
 
 
-def o6_squeeze(prog, ctx):
-    rid = "O6"
-    f = prog.func("symmray.abelian_core:AbelianArray.squeeze")
-    txt = src(f.node)
-    g1 = [n for n in ast.walk(f.node) if isinstance(n, ast.If) and src(n.test) == "remove and ix.size_total > 1" and isinstance(n.body[0], ast.Raise)]
-    ctx.check(len(g1) == 1, rid, f, f.node, "size guard", "an explicitly named axis larger than one raises")
-    g2 = [n for n in ast.walk(f.node) if isinstance(n, ast.If) and src(n.test) == "charge != zero_charge" and isinstance(n.body[0], ast.Raise)]
-    ctx.check(len(g2) == 1, rid, f, f.node, "charge guard", "an axis carrying a non-identity charge cannot be squeezed (the total charge would change)")
-    z = [a for a in walk_own(f.node) if isinstance(a, ast.Assign) and src(a.targets[0]) == "zero_charge"]
-    ctx.check(len(z) == 1 and src(z[0].value) == "x.symmetry.combine()", rid, f, f.node, "identity", "the identity charge is the empty combination")
-    auto = [a for a in ast.walk(f.node) if isinstance(a, ast.Assign) and src(a.targets[0]) == "remove" and src(a.value) == "ix.size_total == 1"]
-    ctx.check(len(auto) == 1, rid, f, f.node, "automatic choice", "with no axis given, exactly the size-one axes are candidates")
-    lam = [l for l in ast.walk(f.node) if isinstance(l, ast.Lambda) and src(l.args) == "sector"]
-    ok = len(lam) == 1 and src(lam[0].body) == "tuple((sector[ax] for ax in keep))"
-    ctx.check(ok, rid, f, f.node, "sector map", "sectors, blocks and indices are reduced by the same kept-axes list")
-    ok = "keep.append(ax)" in txt and "new_indices.append(ix)" in txt and "selector.append(slice(None))" in txt and "selector.append(0)" in txt
-    ctx.check(ok, rid, f, f.node, "co-population", "kept axes, kept indices and the block selector are appended in the same branch")
+def _job(state, job):
+    """one unit of work on a forked worker: returns (results, number of programs)"""
+    prog, tier = state
+    kind, sp = job
+    b = Battery(prog, tier)
+    if kind == "unary":
+        for (rule, name, anchor, fn) in unary_ops(b, sp):
+            b.run(rule, name, anchor, sp, fn)
+        if sp.ndim == 2:
+            for (rule, name, anchor, fn) in matrix_ops(b, sp):
+                b.run(rule, name, anchor, sp, fn)
+    elif kind == "binary":
+        for (rule, name, anchor, fn, others) in binary_ops(b, sp):
+            b.run(rule, name, anchor, sp, fn, others=others)
+    elif kind == "square":
+        for (rule, name, anchor, fn) in square_ops(b, sp):
+            b.run(rule, name, anchor, sp, fn)
+    elif kind == "solve":
+        solve_cases(b, tier)
+    elif kind == "chain":
+        firsts = [(r, n, a, f) for (r, n, a, f) in unary_ops(b, sp) if not any(k in n for k in CHAIN_SKIP_FIRST)]
+
+        def second_for(nd2, sp=sp):
+            sp2 = Spec(sp.sym, (False,) * nd2, sp.charge, TABLES[sp.sym][:nd2], fermionic=sp.fermionic)
+            return [(r, n, a, f) for (r, n, a, f) in unary_ops(b, sp2) if not any(k in n for k in CHAIN_SKIP_SECOND)]
+
+        chains(b, sp, firsts, second_for)
+    return b.res, b.nprog
 
 
-def o9_filter_sites(prog, ctx):
-    rid = "O9"
-    # every function that builds a filtered block dict and installs it shrinks the indices with drop_charges
-    sites = {
-        "symmray.abelian_core:_tensordot_blockwise": 1,
-        "symmray.abelian_core:drop_misaligned_sectors": 2,
-        "symmray.abelian_core:AbelianArray.sync_charges": 1,
-    }
-    for fq, want in sites.items():
-        f = prog.func(fq)
-        inits = [a for a in ast.walk(f.node) if isinstance(a, ast.Assign) and src(a.targets[0]) == "charges_drop"]
-        ctx.check(len(inits) == want and all("set(ix.charges) for ix in" in src(a.value) for a in inits), rid, f, f.node,
-                  f"{len(inits)} candidate sets", f"{f.qualname}: starts from all charges of every index as candidates to drop")
-        discards = [c for c in ast.walk(f.node) if isinstance(c, ast.Call) and src(c.func) == "charges_drop[i].discard"]
-        ctx.check(len(discards) == want and all(src(c.args[0]) == "c" for c in discards), rid, f, f.node, f"{len(discards)} discards",
-                  f"{f.qualname}: every charge of every kept sector is marked as still present")
-        drops = [c for c in ast.walk(f.node) if isinstance(c, ast.Call) and src(c.func).endswith(".drop_charges")]
-        ctx.check(len(drops) == want, rid, f, f.node, f"{len(drops)} drop_charges", f"{f.qualname}: the index tables are reduced by drop_charges")
-    # mark-present loops range over the kept sectors only
-    dm = prog.func("symmray.abelian_core:drop_misaligned_sectors")
-    keeps = [n for n in ast.walk(dm.node) if isinstance(n, ast.If) and "in allowed_subsectors" in src(n.test)]
-    ok = all(any(isinstance(x, ast.Call) and src(x.func) == "charges_drop[i].discard" for s in n.body for x in ast.walk(s)) for n in keeps) and len(keeps) >= 1 \
-        or not keeps
-    helper_based = not keeps
-    if helper_based:
-        ctx.notes.append("O9: drop_misaligned_sectors delegates its filtering to a helper; covered by the abstract evaluation in C06/R06.2")
-    else:
-        ctx.check(ok, rid, dm, dm.node, "kept sectors", "only sectors that are kept mark their charges as present")
+def quick_universe():
+    """a slice of the universe small enough for every change: two direction patterns per rank, sparse and full"""
+    out = []
+    for sp in specs("quick"):
+        nd = sp.ndim
+        pats = {tuple(bool(i % 2) for i in range(nd)), tuple(i < (nd + 1) // 2 for i in range(nd))}
+        if sp.duals not in pats:
+            continue
+        if sp.sym == "Z2Z2" and (nd == 4 or sp.drop == "none"):
+            continue
+        if sp.fermionic and sp.drop == "none" and nd >= 3:
+            continue
+        out.append(sp)
+    return out
 
 
-def shared(prog, ctx):
+def run(prog, ctx):
+    from engine.parallel import pmap
     from rules.c04_order import check_phased_sort
     from rules.c09_typestate import check_mirrors
     from rules.c11_bonds import check_factor_bonds
     from rules.c13_trunc import check_together
 
-    check_mirrors(prog, ctx)  # O7
-    check_together(prog, ctx)  # O8
-    check_phased_sort(prog, ctx)  # O10
-    check_factor_bonds(prog, ctx)  # decomposition bonds
-
-
-def run(prog, ctx):
-    ctx.rule("O1", "all-index conjugation <=> charge negation (and label conjugation) in one update")
-    ctx.rule("O2", "index conjugation flips direction and conjugates the sub-index table recursively")
-    ctx.rule("O3", "drop_charges filters charge table and extents by the same set")
-    ctx.rule("O4", "result indices from both operands' free indices <=> charge = combine(a.charge, b.charge)")
-    ctx.rule("O5", "expand_dims: one axis for sector, selector, index; charge updated iff a charge is given")
-    ctx.rule("O6", "squeeze: size-one and identity-charge guards; sectors/blocks/indices reduced together")
-    ctx.rule("O9", "sector-filtering sites shrink the index tables to the charges still present")
-    ctx.rule("R09.2", "O7: re-keying of blocks is mirrored on the sign table (shared with C09)")
-    ctx.rule("R13.4", "O8: truncation re-indexes both factors together (shared with C13)")
-    ctx.rule("R04.3", "O10: merged labels stored on every path, phase via phase_global only (shared with C04)")
+    tier = ctx.tier
+    ctx.rule("V1", "structure-preserving operations (copy, conj, dagger, transpose, scalar arithmetic, sync_charges, fill_missing_blocks, "
+                   "permutation einsum): every result passes the validity audit")
+    ctx.rule("V2", "expand_dims / squeeze: every result passes the validity audit")
+    ctx.rule("V3", "fuse (both strategies) / unfuse / unfuse_all / reshape, including fusing fused axes and conjugating or transposing "
+                   "fused arrays: every result passes the validity audit (sub-index extents partition the fused index)")
+    ctx.rule("V4", "tensordot in modes auto, fused, blockwise with 0..3 contracted axes and sparse operands, matmul, trace, "
+                   "multiply_diagonal, align_axes, addition and subtraction: every result passes the validity audit")
+    ctx.rule("V5", "qr, svd, svd_truncated, eigh, solve (abelian and fermionic): every returned array passes the validity audit")
+    ctx.rule("V6", "fermionic sign operations (phase_sync, phase_flip, phase_transpose, phase_sector, phase_global, conj/dagger/"
+                   "transpose variants): every result passes the validity audit")
+    ctx.rule("V7", "two-step programs (every array produced by one operation is fed to every applicable second operation): every "
+                   "result passes the validity audit")
+    ctx.rule("R09.2", "re-keying of blocks is mirrored on the sign table (shared with C09)")
+    ctx.rule("R13.4", "truncation re-indexes both factors together (shared with C13)")
+    ctx.rule("R04.3", "merged labels stored on every path, phase via phase_global only (shared with C04)")
     ctx.rule("R11.1", "decomposition bond index bookkeeping (shared with C11)")
-    o1_conj_sites(prog, ctx)
-    o2_index_conj(prog, ctx)
-    o3_drop_charges(prog, ctx)
-    o4_contraction_charge(prog, ctx)
-    o5_expand_dims(prog, ctx)
-    o6_squeeze(prog, ctx)
-    o9_filter_sites(prog, ctx)
-    shared(prog, ctx)
-    ctx.minimum("O1", 5, "conj, fermionic conj, dagger")
-    ctx.minimum("O5", 6, "expand_dims")
-    ctx.minimum("O6", 6, "squeeze")
-    ctx.minimum("O9", 9, "three filtering functions")
+    universe = quick_universe() if tier == "quick" else specs(tier)
+    jobs = [("unary", sp) for sp in universe]
+    if tier == "quick":
+        jobs += [("binary", sp) for sp in universe if sp.sym != "Z2Z2" and (sp.drop == "alternate" or sp.ndim <= 2)]
+        chain_specs = [sp for sp in universe if sp.ndim in (2, 3) and sp.drop == "alternate" and sp.sym in ("Z2", "U1")][:8]
+    else:
+        jobs += [("binary", sp) for sp in universe if sp.drop in ("none", "alternate")]
+        chain_specs = [sp for sp in universe if sp.ndim in (2, 3) and sp.drop == "alternate"]
+    jobs += [("square", sp) for sp in square_specs(tier)]
+    jobs += [("solve", None)]
+    jobs += [("chain", sp) for sp in chain_specs]
+    b = Battery(prog, tier)
+    for res, n in pmap(_job, (prog, tier), jobs):
+        b.merge(res, n)
+    b.flush(ctx)
+    ctx.extra_coverage = {"abstract_programs_evaluated": b.nprog, "universe_arrays": len(universe),
+                          "universe": [sp.describe() for sp in universe][:400]}
+    ctx.need(b.nprog >= 1500, f"C01: only {b.nprog} abstract programs evaluated")
+    check_mirrors(prog, ctx)
+    check_together(prog, ctx)
+    check_phased_sort(prog, ctx)
+    check_factor_bonds(prog, ctx)
+    ctx.minimum("V1", 14, "structure-preserving operations")
+    ctx.minimum("V3", 20, "fuse/unfuse programs")
+    ctx.minimum("V4", 10, "contractions")
+    ctx.minimum("V5", 5, "decompositions")
+    ctx.minimum("V6", 8, "fermionic sign operations")
